@@ -1,11 +1,20 @@
 /-
 Model of include resolution: `neuroml/loaders.py` (`read_neuroml2_file`, `read_neuroml2_string`,
-`_read_neuroml2`) and `neuroml/utils.py` (`add_all_to_document`).  Mathlib-free, executable.
+`_read_neuroml2`, `NeuroMLHdf5Loader.load`), `neuroml/hdf5/NeuroMLHdf5Parser.py` (`parse`: the includes of
+the XML embedded in an HDF5 file) and `neuroml/utils.py` (`add_all_to_document`).  Mathlib-free, executable.
 
-A path is the list of its components (absolute, normalised).  A file has a kind (decided by its
-extension), the hrefs of its `<include>` elements in document order, and its top-level components; a
-component is `(member list, id, payload)` — the payload lets the correspondence check see *which* copy
-of an id survived de-duplication.
+A path is the list of its components (absolute, normalised, relative to the root of the file tree).  A file has
+a kind (decided by its extension), the hrefs of its `<include>` elements in document order, and its top-level
+components in document order; a component is `(member list, id, payload)` — the payload lets the
+correspondence check see *which* copy of an id survived de-duplication.
+
+Second pass: components may have NO id (`Ident.absent`: the class has no `id` attribute — `Property`,
+`ComponentType`, `IntracellularProperties` — so `hasattr(c, "id")` is false and the merge never recognises a
+second copy) or an id that is `None` (`Ident.unset`: an id-bearing class whose attribute is missing in the file;
+`None == None` is true, so two such components in one list collide).  A successful read also returns the *read
+log*: every file parsed, in the order it was parsed.  `sh` selects how an HDF5 file's embedded includes are
+resolved: `false` = today's code (the HDF5 parser starts a list of its own), `true` = the proposed repair
+`fixes/C06-hdf5-shared-include-list.patch` (the caller's list is passed through).
 -/
 namespace NmlVerif.Include
 
@@ -17,9 +26,15 @@ inductive Kind where
   | other  -- anything else: `Exception("Unrecognised extension")`
 deriving Repr, DecidableEq, Inhabited
 
+inductive Ident where
+  | absent            -- no `id` attribute on the class: `hasattr(c, "id")` is False
+  | unset             -- `c.id is None`
+  | val (s : String)
+deriving Repr, DecidableEq, Inhabited
+
 structure Comp where
   list : String
-  id : String
+  id : Ident
   payload : String
 deriving Repr, DecidableEq, Inhabited
 
@@ -34,7 +49,7 @@ inductive Res where
   | outOfFuel
   | missing                      -- `sys.exit()` in `read_neuroml2_file`
   | badExt                       -- `Exception("Unrecognised extension on file")`
-  | ok (al : List Path) (doc : List Comp)
+  | ok (al : List Path) (log : List Path) (doc : List Comp)
 deriving Repr, DecidableEq
 
 def hasSuffix (s suf : String) : Bool := suf.toList.isSuffixOf s.toList
@@ -58,77 +73,118 @@ def entryIsH5 (p : Path) : Bool :=
 def norm (p : List String) : Path :=
   p.foldl (fun acc c => if c = "." ∨ c = "" then acc else if c = ".." then acc.dropLast else acc ++ [c]) []
 
-/-- the code's rule: a href that exists relative to the working directory wins, otherwise it is taken
-    relative to the including file's directory (`base_path_to_use`). -/
+/-- an href that starts with `/` (first component empty) -/
+def isAbs (href : List String) : Bool := href.head? = some ""
+
+/-- `os.path.join(base, href)`: an absolute href discards the base -/
+def join (base : Path) (href : List String) : List String := if isAbs href then href else base ++ href
+
+/-- the code's rule: a href that exists relative to the working directory wins (`os.path.exists(href)`,
+    `os.path.abspath(href)`), otherwise it is taken relative to the including file's directory
+    (`os.path.abspath(os.path.join(base_path_to_use, href))`). -/
 def resolveHref (fs : FS) (cwd base : Path) (href : List String) : Path :=
-  if (fs (norm (cwd ++ href))).isSome then norm (cwd ++ href) else norm (base ++ href)
+  if (fs (norm (join cwd href))).isSome then norm (join cwd href) else norm (join base href)
 
-def key (c : Comp) : String × String := (c.list, c.id)
+/-- `hasattr(c, "id") and c.id == entry.id`, inside one member list.  (A list mixing classes with and without
+    an `id` attribute cannot come out of the parser; the real expression would raise `AttributeError` on it.) -/
+def same (t c : Comp) : Bool := decide (t.list = c.list ∧ t.id ≠ .absent ∧ t.id = c.id)
 
-/-- `add_all_to_document(src, tgt)`: append every entry whose id is not yet in the same target list. -/
+def idless (c : Comp) : Bool := decide (c.id = .absent)
+
+/-- `add_all_to_document(src, tgt)`: append every entry for which no element of the same target list has
+    an `id` attribute equal to the entry's. -/
 def addOne (tgt : List Comp) (c : Comp) : List Comp :=
-  if tgt.any (fun t => key t = key c) then tgt else tgt ++ [c]
+  if tgt.any (fun t => same t c) then tgt else tgt ++ [c]
 
 def addAll (src tgt : List Comp) : List Comp := src.foldl addOne tgt
 
-/-- one iteration of the include loop (repaired form: the file is marked *before* it is read). `rec`
-    reads an XML include recursively; an HDF5 include is loaded without include processing. -/
-def step (fs : FS) (cwd base : Path) (rec : Path → List Path → Res) (acc : Res) (href : List String) : Res :=
+/-- one iteration of the include loop (the file is marked *before* it is read). `rec` reads a file and
+    resolves its includes; `log` collects the files parsed. -/
+def step (sh : Bool) (fs : FS) (cwd base : Path) (rec : Path → List Path → Res) (acc : Res)
+    (href : List String) : Res :=
   match acc with
-  | .ok al doc =>
+  | .ok al log doc =>
     let loc := resolveHref fs cwd base href
-    if loc ∈ al then .ok al doc else
+    if loc ∈ al then .ok al log doc else
       match kindOf loc with
       | .other => .badExt
       | .h5 =>
-        -- `NeuroMLHdf5Loader.load`: the HDF5 parser resolves the includes of the embedded XML itself,
-        -- through `read_neuroml2_string` with a list of its own; the outer list only gains `loc`.
-        match rec loc [] with
-        | .ok _ sub => .ok (loc :: al) (addAll sub doc)
-        | r => r
+        if sh then
+          -- repaired: `already_included.append(incl_loc); NeuroMLHdf5Loader.load(incl_loc, already_included=…)`
+          match rec loc (loc :: al) with
+          | .ok al' sl sub => .ok al' (log ++ sl) (addAll sub doc)
+          | r => r
+        else
+          -- today: `NeuroMLHdf5Loader.load(incl_loc)`: the HDF5 parser resolves the includes of the embedded
+          -- XML through `read_neuroml2_string` with a list of its own; the outer list only gains `loc`.
+          match rec loc [] with
+          | .ok _ sl sub => .ok (loc :: al) (log ++ sl) (addAll sub doc)
+          | r => r
       | .xml =>
         match rec loc (loc :: al) with
-        | .ok al' sub => .ok al' (addAll sub doc)
+        | .ok al' sl sub => .ok al' (log ++ sl) (addAll sub doc)
         | r => r
   | r => r
 
-/-- `_read_neuroml2` on a file that exists, `include_includes=True`; `al` already contains `p`. -/
-def visit (fs : FS) (cwd : Path) : Nat → Path → List Path → Res
+/-- `_read_neuroml2` on a file, `include_includes=True`, with the list `al` (which, on every path through
+    `read_neuroml2_file`, already contains `p`). -/
+def visit (sh : Bool) (fs : FS) (cwd : Path) : Nat → Path → List Path → Res
   | 0, _, _ => .outOfFuel
   | f+1, p, al =>
     match fs p with
     | none => .missing
-    | some file => file.hrefs.foldl (step fs cwd p.dropLast (visit fs cwd f)) (.ok al file.comps)
+    | some file => file.hrefs.foldl (step sh fs cwd p.dropLast (visit sh fs cwd f)) (.ok al [p] file.comps)
 
-/-- `read_neuroml2_file(path, include_includes=True)`: the entry file is marked first. -/
-def readFile (fs : FS) (cwd : Path) (fuel : Nat) (p : Path) : Res :=
+/-- `read_neuroml2_file(path, include_includes=True)`: the entry file is marked first. An HDF5 entry file's
+    includes are resolved inside the HDF5 parser and the result is merged into a fresh document. -/
+def readFile (sh : Bool) (fs : FS) (cwd : Path) (fuel : Nat) (p : Path) : Res :=
   if entryIsH5 p then
-    -- resolved inside the HDF5 parser with its own list, then merged into a fresh document
-    match visit fs cwd fuel p [] with
-    | .ok _ doc => .ok [p] (addAll doc [])
-    | r => r
-  else visit fs cwd fuel p [p]
+    if sh then
+      match visit sh fs cwd fuel p [p] with
+      | .ok al log doc => .ok al log (addAll doc [])
+      | r => r
+    else
+      match visit sh fs cwd fuel p [] with
+      | .ok _ log doc => .ok [p] log (addAll doc [])
+      | r => r
+  else visit sh fs cwd fuel p [p]
 
 /-- `read_neuroml2_string(text, include_includes=True, base_path=base)`: nothing is marked initially. -/
-def readString (fs : FS) (cwd base : Path) (fuel : Nat) (hrefs : List (List String)) (comps : List Comp) : Res :=
-  hrefs.foldl (step fs cwd base (visit fs cwd fuel)) (.ok [] comps)
+def readString (sh : Bool) (fs : FS) (cwd base : Path) (fuel : Nat) (hrefs : List (List String))
+    (comps : List Comp) : Res :=
+  hrefs.foldl (step sh fs cwd base (visit sh fs cwd fuel)) (.ok [] [] comps)
 
-/-! ### the loop as it was before the repair (kept to document the defect) -/
+/-- `_read_neuroml2(path, include_includes=True)` called directly (internal entry point: no list is
+    given, so the entry file itself is not marked). -/
+def readInternal (sh : Bool) (fs : FS) (cwd : Path) (fuel : Nat) (p : Path) : Res :=
+  match visit sh fs cwd fuel p [] with
+  | .ok al log doc => if entryIsH5 p then .ok [] log (addAll doc []) else .ok al log doc
+  | r => r
+
+/-- `read_neuroml2_file(path, include_includes=False)`: the include entries stay; an HDF5 entry file's
+    embedded includes are resolved by its parser all the same. -/
+def readNoInc (sh : Bool) (fs : FS) (cwd : Path) (fuel : Nat) (p : Path) : Res :=
+  if entryIsH5 p then readFile sh fs cwd fuel p
+  else match fs p with
+    | none => .missing
+    | some file => .ok [p] [p] file.comps
+
+/-! ### the loop as it was before the repair 5bb970b (kept to document the defect) -/
 
 def stepOld (fs : FS) (cwd base : Path) (rec : Path → List Path → Res) (acc : Res) (href : List String) : Res :=
   match acc with
-  | .ok al doc =>
+  | .ok al log doc =>
     let loc := resolveHref fs cwd base href
-    if loc ∈ al then .ok al doc else
+    if loc ∈ al then .ok al log doc else
       match kindOf loc with
       | .other => .badExt
       | .h5 =>
         match rec loc [] with
-        | .ok _ sub => .ok (loc :: al) (addAll sub doc)
+        | .ok _ sl sub => .ok (loc :: al) (log ++ sl) (addAll sub doc)
         | r => r
       | .xml =>
         match rec loc al with
-        | .ok al' sub => .ok (loc :: al') (addAll sub doc)
+        | .ok al' sl sub => .ok (loc :: al') (log ++ sl) (addAll sub doc)
         | r => r
   | r => r
 
@@ -137,6 +193,6 @@ def visitOld (fs : FS) (cwd : Path) : Nat → Path → List Path → Res
   | f+1, p, al =>
     match fs p with
     | none => .missing
-    | some file => file.hrefs.foldl (stepOld fs cwd p.dropLast (visitOld fs cwd f)) (.ok al file.comps)
+    | some file => file.hrefs.foldl (stepOld fs cwd p.dropLast (visitOld fs cwd f)) (.ok al [p] file.comps)
 
 end NmlVerif.Include
